@@ -224,6 +224,25 @@ func mutantsOf(rng *rand.Rand, idx int, orig *TxInfo, g *Gen, st *MState, chainI
 		pm.XAmount = v.Lsh(v, 1).Bytes()
 		return true
 	})
+	for _, sh := range []uint{32, 64, 128, 200} {
+		sh := sh
+		add(fmt.Sprintf("amount+2^%d", sh), true, func(pm *rctypes.TrxProto) bool {
+			v := new(big.Int).SetBytes(pm.XAmount)
+			v.Add(v, new(big.Int).Lsh(big.NewInt(1), sh))
+			pm.XAmount = v.Bytes()
+			return true
+		})
+		add(fmt.Sprintf("gasprice+2^%d", sh), true, func(pm *rctypes.TrxProto) bool {
+			v := new(big.Int).SetBytes(pm.XGasPrice)
+			v.Add(v, new(big.Int).Lsh(big.NewInt(1), sh))
+			pm.XGasPrice = v.Bytes()
+			return true
+		})
+	}
+	add("nonce+2^32", true, func(pm *rctypes.TrxProto) bool { pm.Nonce += 1 << 32; return true })
+	add("time+2^32", true, func(pm *rctypes.TrxProto) bool { pm.Time += 1 << 32; return true })
+	add("time-negated", true, func(pm *rctypes.TrxProto) bool { pm.Time = -pm.Time; return pm.Time != 0 })
+	add("version+2^16", true, func(pm *rctypes.TrxProto) bool { pm.Version += 1 << 16; return true })
 	add("gas+1", true, func(pm *rctypes.TrxProto) bool { pm.Gas++; return true })
 	add("gas-1", true, func(pm *rctypes.TrxProto) bool { pm.Gas--; return true })
 	add("gas+2^32", true, func(pm *rctypes.TrxProto) bool { pm.Gas += 1 << 32; return true })
@@ -261,6 +280,21 @@ func mutantsOf(rng *rand.Rand, idx int, orig *TxInfo, g *Gen, st *MState, chainI
 			pm.XPayload, _ = proto.Marshal(p)
 			return true
 		})
+		for _, sh := range []uint{64, 65, 128, 255} {
+			sh := sh
+			add(fmt.Sprintf("payload:reqamt+2^%d", sh), true, func(pm *rctypes.TrxProto) bool {
+				p := &rctypes.TrxPayloadWithdrawProto{}
+				_ = proto.Unmarshal(pm.XPayload, p)
+				v := new(big.Int).SetBytes(p.XReqAmt)
+				v.Add(v, new(big.Int).Lsh(big.NewInt(1), sh))
+				if v.Cmp(two256) >= 0 {
+					return false
+				}
+				p.XReqAmt = v.Bytes()
+				pm.XPayload, _ = proto.Marshal(p)
+				return true
+			})
+		}
 		add("payload:reqamt-halved", true, func(pm *rctypes.TrxProto) bool {
 			p := &rctypes.TrxPayloadWithdrawProto{}
 			_ = proto.Unmarshal(pm.XPayload, p)
@@ -309,6 +343,9 @@ func mutantsOf(rng *rand.Rand, idx int, orig *TxInfo, g *Gen, st *MState, chainI
 			{"period-1", func(p *rctypes.TrxPayloadProposalProto) { p.VotingBlocks-- }},
 			{"applying+1", func(p *rctypes.TrxPayloadProposalProto) { p.ApplyingHeight++ }},
 			{"opttype", func(p *rctypes.TrxPayloadProposalProto) { p.OptType ^= 0x0300 }},
+			{"opttype-sign", func(p *rctypes.TrxPayloadProposalProto) { p.OptType |= -1 << 31 }},
+			{"start+2^32", func(p *rctypes.TrxPayloadProposalProto) { p.StartVotingHeight += 1 << 32; p.ApplyingHeight += 1 << 32 }},
+			{"applying+2^32", func(p *rctypes.TrxPayloadProposalProto) { p.ApplyingHeight += 1 << 32 }},
 			{"option-edited", func(p *rctypes.TrxPayloadProposalProto) {
 				if len(p.Options) > 0 {
 					p.Options[0] = []byte(`{"slashRatio":"100"}`)
@@ -407,7 +444,8 @@ func checkC03(c *Ctx) {
 			o.Params.MaxValidatorCnt = int64(o.Gen.NVal)
 		}
 		o.Gen.Evidence, o.Gen.Absent = 0, 0
-		o.Gen.W["proposal"], o.Gen.W["vote"] = 14, 20
+		o.Gen.W["proposal"], o.Gen.W["vote"], o.Gen.W["withdraw"] = 14, 20, 14
+		o.Params.RewardPerPower = "700000000000000000" // withdrawable rewards soon exceed 2^64: high-bit edits of the amount matter
 		hr := runHistory(c, i, c.Rng("hist-C03", i), o)
 		hr.Report("C03")
 		if len(hr.Results) < o.Blocks {
